@@ -193,6 +193,9 @@ func (t *Tx) GetUnconfirmedTx(dedup bool) ([]*pb.Transaction, error) {
 	if loadErr != nil {
 		return nil, loadErr
 	}
+	// a transaction that only READ a key version has to come before the pending transaction that supersedes that
+	// version (anti-dependency): in the opposite order it is stale by the time a block is replayed
+	addAntiDependencies(txMap, txGraph)
 	// 拓扑排序，输出的顺序是被依赖的在前，依赖方在后
 	outputTxList, unexpectedCyclic, _ := TopSortDFS(txGraph)
 	if unexpectedCyclic { // 交易之间检测出了环形的依赖关系
@@ -206,6 +209,43 @@ func (t *Tx) GetUnconfirmedTx(dedup bool) ([]*pb.Transaction, error) {
 		selectedTxs = append(selectedTxs, txMap[txid])
 	}
 	return selectedTxs, nil
+}
+
+// addAntiDependencies adds, for every pending transaction that reads a key version without writing the key, an edge
+// to the pending transaction that reads the same version and writes the key (at most one in a conflict-free pool).
+// The graph handed in is the local copy of GetUnconfirmedTx: roll-back order and conflict handling keep using the
+// producer -> consumer edges only.
+func addAntiDependencies(txMap map[string]*pb.Transaction, txGraph TxGraph) {
+	verKey := func(in *protos.TxInputExt) string {
+		return fmt.Sprintf("%s\x00%s\x00%x\x00%d", in.GetBucket(), in.GetKey(), in.GetRefTxid(), in.GetRefOffset())
+	}
+	writes := func(tx *pb.Transaction) map[string]bool {
+		m := map[string]bool{}
+		for _, out := range tx.GetTxOutputsExt() {
+			m[out.GetBucket()+"\x00"+string(out.GetKey())] = true
+		}
+		return m
+	}
+	supersededBy := map[string]string{} // key version -> pending transaction that supersedes it
+	for txid, tx := range txMap {
+		w := writes(tx)
+		for _, in := range tx.GetTxInputsExt() {
+			if w[in.GetBucket()+"\x00"+string(in.GetKey())] {
+				supersededBy[verKey(in)] = txid
+			}
+		}
+	}
+	for txid, tx := range txMap {
+		w := writes(tx)
+		for _, in := range tx.GetTxInputsExt() {
+			if w[in.GetBucket()+"\x00"+string(in.GetKey())] {
+				continue
+			}
+			if writer, ok := supersededBy[verKey(in)]; ok && writer != txid {
+				txGraph[txid] = append(txGraph[txid], writer)
+			}
+		}
+	}
 }
 
 // 加载所有未确认的订单表到内存
